@@ -237,6 +237,9 @@ func decryptKeyV3(keyProtected *encryptedKeyJSONV3, auth string) (keyBytes []byt
 		return nil, nil, err
 	}
 
+	if len(derivedKey) < 32 {
+		return nil, nil, ErrDecrypt
+	}
 	calculatedMAC := crypto.Keccak256(derivedKey[16:32], cipherText)
 	if !bytes.Equal(calculatedMAC, mac) {
 		return nil, nil, ErrDecrypt
@@ -271,6 +274,9 @@ func decryptKeyV1(keyProtected *encryptedKeyJSONV1, auth string) (keyBytes []byt
 		return nil, nil, err
 	}
 
+	if len(derivedKey) < 32 {
+		return nil, nil, ErrDecrypt
+	}
 	calculatedMAC := crypto.Keccak256(derivedKey[16:32], cipherText)
 	if !bytes.Equal(calculatedMAC, mac) {
 		return nil, nil, ErrDecrypt
@@ -285,21 +291,43 @@ func decryptKeyV1(keyProtected *encryptedKeyJSONV1, auth string) (keyBytes []byt
 
 func getKDFKey(cryptoJSON cryptoJSON, auth string) ([]byte, error) {
 	authArray := []byte(auth)
-	salt, err := hex.DecodeString(cryptoJSON.KDFParams["salt"].(string))
+	saltHex, ok := cryptoJSON.KDFParams["salt"].(string)
+	if !ok {
+		return nil, fmt.Errorf("invalid KDF params: salt is not a string")
+	}
+	salt, err := hex.DecodeString(saltHex)
 	if err != nil {
 		return nil, err
 	}
-	dkLen := ensureInt(cryptoJSON.KDFParams["dklen"])
+	dkLen, err := ensureInt(cryptoJSON.KDFParams["dklen"])
+	if err != nil {
+		return nil, err
+	}
 
 	if cryptoJSON.KDF == keyHeaderKDF {
-		n := ensureInt(cryptoJSON.KDFParams["n"])
-		r := ensureInt(cryptoJSON.KDFParams["r"])
-		p := ensureInt(cryptoJSON.KDFParams["p"])
+		n, err := ensureInt(cryptoJSON.KDFParams["n"])
+		if err != nil {
+			return nil, err
+		}
+		r, err := ensureInt(cryptoJSON.KDFParams["r"])
+		if err != nil {
+			return nil, err
+		}
+		p, err := ensureInt(cryptoJSON.KDFParams["p"])
+		if err != nil {
+			return nil, err
+		}
 		return scrypt.Key(authArray, salt, n, r, p, dkLen)
 
 	} else if cryptoJSON.KDF == "pbkdf2" {
-		c := ensureInt(cryptoJSON.KDFParams["c"])
-		prf := cryptoJSON.KDFParams["prf"].(string)
+		c, err := ensureInt(cryptoJSON.KDFParams["c"])
+		if err != nil {
+			return nil, err
+		}
+		prf, ok := cryptoJSON.KDFParams["prf"].(string)
+		if !ok {
+			return nil, fmt.Errorf("invalid KDF params: prf is not a string")
+		}
 		if prf != "hmac-sha256" {
 			return nil, fmt.Errorf("Unsupported PBKDF2 PRF: %s", prf)
 		}
@@ -313,10 +341,12 @@ func getKDFKey(cryptoJSON cryptoJSON, auth string) ([]byte, error) {
 // TODO: can we do without this when unmarshalling dynamic JSON?
 // why do integers in KDF params end up as float64 and not int after
 // unmarshal?
-func ensureInt(x interface{}) int {
-	res, ok := x.(int)
-	if !ok {
-		res = int(x.(float64))
+func ensureInt(x interface{}) (int, error) {
+	switch v := x.(type) {
+	case int:
+		return v, nil
+	case float64:
+		return int(v), nil
 	}
-	return res
+	return 0, fmt.Errorf("invalid KDF params: %v is not a number", x)
 }
